@@ -416,6 +416,13 @@ pub fn cfg_json(cfg: &Cfg, files: &dyn Fn(Uuid) -> i64) -> Value {
         fe.sort_unstable();
         m.insert("funcs".into(), json!(fe));
         m.insert("nfuncs".into(), json!(n.functions().len()));
+        let mut fp: Vec<(i64, i64)> = n
+            .functions()
+            .iter()
+            .map(|f| (ix.idx(&f.entry()), ix.idx(&Rc::clone(&f.exit()))))
+            .collect();
+        fp.sort_unstable();
+        m.insert("fpairs".into(), json!(fp.iter().map(|(a, b)| vec![*a, *b]).collect::<Vec<_>>()));
         nodes.push(Value::Object(m));
     }
     // function table: one record per map entry (label), plus distinct functions
